@@ -18,6 +18,7 @@ def Admissible (w : World Val Err Op) : Stmt Val Op → Prop
   | .bind _ args => ∀ a ∈ args, ArgClean w.stat a
   | .where_ c x y => ArgClean w.stat c ∧ ArgClean w.stat x ∧ ArgClean w.stat y
   | .watch n => ∀ nd, w.nodes[n]? = some nd → nd.toNStat.isW = false
+  | .ref n => ∀ nd, w.nodes[n]? = some nd → nd.toNStat.isW = false
   | _ => True
 
 /-- operands stay clean in the later world -/
@@ -348,6 +349,18 @@ theorem runConsumers_outcome {S : Sem Val Err Op} (fuel : Nat) : ∀ (cs : List 
           · exact Or.inl ⟨log, some _, h.1.symm⟩
           · exact Or.inr (Or.inl h.1.symm)
           · exact Or.inr (Or.inr h.1.symm)
+    | sync k n d =>
+      simp only [runConsumers] at h
+      cases h1 : run S fuel (.resolve n) w with
+      | mk r w1 =>
+        simp only [h1] at h
+        cases r with
+        | ok cv => exact runConsumers_outcome fuel cs _ _ o w' h
+        | error x =>
+          cases x <;> simp only [Prod.mk.injEq] at h
+          · exact Or.inl ⟨log, some _, h.1.symm⟩
+          · exact Or.inr (Or.inl h.1.symm)
+          · exact Or.inr (Or.inr h.1.symm)
 
 /-- a call on a node that does not exist changes nothing -/
 theorem run_missing {S : Sem Val Err Op} {w : World Val Err Op} {n : NId} (hn : w.nodes[n]? = none) (fuel : Nat) :
@@ -660,6 +673,42 @@ theorem good_step {S : Sem Val Err Op} (hEq : ∀ a b, S.isEqual a b = true → 
           simp only [h1, Prod.mk.injEq] at h
           exact hf h.1.symm
         exact (good_run g (call := .resolve n) ⟨trivial, nd, hn⟩ h1 hr).1
+  | ref n =>
+    simp only [step] at h
+    cases hn : w.nodes[n]? with
+    | none => simp only [hn, Prod.mk.injEq] at h; exact absurd h.1.symm hbad
+    | some nd =>
+      simp only [hn] at h
+      split at h
+      · simp only [Prod.mk.injEq] at h; exact absurd h.1.symm hbad
+      · cases h1 : run S fuel (.resolve n) w with
+        | mk r w1 =>
+          simp only [h1] at h
+          have hr : r ≠ .error .fuel := by
+            intro hr; subst hr
+            simp only [Prod.mk.injEq] at h
+            exact hf h.1.symm
+          obtain ⟨g1, p1⟩ := good_run g (call := .resolve n) ⟨trivial, nd, hn⟩ h1 hr
+          cases r with
+          | error x =>
+            cases x <;> (simp only [Prod.mk.injEq] at h; obtain ⟨_, rfl⟩ := h; exact g1)
+          | ok v =>
+            simp only [Prod.mk.injEq] at h; obtain ⟨_, rfl⟩ := h
+            obtain ⟨nd1, hn1, hs1⟩ := p1.stat.node hn
+            have e : Ext w1 { w1 with consumers := w1.consumers ++ [Consumer.sync w1.holders.length n nd.params],
+                                      holders := w1.holders ++ [v] } :=
+              ⟨⟨[], by simp⟩, ⟨[], by simp⟩, ⟨[], by simp⟩, ⟨[_], rfl⟩, fun _ _ => rfl⟩
+            refine g1.ext0 e rfl ?_ g1.inLt g1.trOK g1.trLt
+            intro c hc hc'
+            simp only [List.mem_append, List.mem_singleton] at hc
+            rcases hc with hc | rfl
+            · exact absurd hc hc'
+            · refine ⟨nd1.toNStat, stat_node (w := { w1 with consumers := _, holders := _ }) hn1, ?_, ?_⟩
+              · rw [hs1]; exact hadm nd hn
+              · rw [hs1]
+  | readref hh =>
+    simp only [step] at h
+    split at h <;> (simp only [Prod.mk.injEq] at h; obtain ⟨_, rfl⟩ := h; exact g)
 
 end
 end ParamVerif.Rx
